@@ -72,6 +72,17 @@ func (r *runner) Op(f []string) string {
 		} else {
 			_ = r.c.SetReadDeadline(vtime.Now().Add(time.Duration(vh.Atoi(f[1])) - time.Duration(vtime.SinceEpoch())))
 		}
+	case "dlb":
+		// SetDeadline (read and write deadline at once) where the type has it
+		t := time.Time{}
+		if f[1] != "zero" {
+			t = vtime.Now().Add(time.Duration(vh.Atoi(f[1])) - time.Duration(vtime.SinceEpoch()))
+		}
+		if sd, ok := r.c.(interface{ SetDeadline(time.Time) error }); ok {
+			_ = sd.SetDeadline(t)
+		} else {
+			_ = r.c.SetReadDeadline(t)
+		}
 	case "arr":
 		r.c.Deliver([]byte{1, 2, 3})
 	case "read":
@@ -94,13 +105,17 @@ func Gen(rg *vh.Rng) []string {
 	for i := 0; i < n; i++ {
 		switch c := rg.Intn(100); {
 		case c < 25:
+			kind := "dl"
+			if rg.Chance(40) {
+				kind = "dlb"
+			}
 			switch rg.Intn(5) {
 			case 0:
-				ops = append(ops, "dl zero")
+				ops = append(ops, kind+" zero")
 			case 1:
-				ops = append(ops, fmt.Sprintf("dl %d", now-rg.Pick(0, 1, 1000000)))
+				ops = append(ops, fmt.Sprintf("%s %d", kind, now-rg.Pick(0, 1, 1000000)))
 			default:
-				ops = append(ops, fmt.Sprintf("dl %d", now+rg.Pick(1, 1000000, 5000000, 2000000000)))
+				ops = append(ops, fmt.Sprintf("%s %d", kind, now+rg.Pick(1, 1000000, 5000000, 2000000000)))
 			}
 		case c < 45:
 			ops = append(ops, "arr")
